@@ -7,6 +7,7 @@ import (
 	"github.com/cuteLittleDevil/go-jt808/service"
 
 	"verif/harness/internal/core"
+	"verif/harness/internal/ref"
 )
 
 // C04 — stream framing is independent of TCP segmentation (hook variant: exhaustive/structured cuts; socket variant: c04sock.go).
@@ -199,6 +200,26 @@ func c04Worker(c *core.Collector, x *Ctx) {
 		}
 		a := hookFrame(v19, 0x0002, r.U16(), false, 0, 0, nil)
 		b := hookFrame(v19, 0x0900, r.U16(), false, 0, 0, body)
+		if i%4 >= 2 {
+			// the longest frames the protocol allows: besides the body, every header byte that can be is a delimiter or escape
+			// byte too (message ID, version byte, phone, serial, package total and number) — 2080..2092 bytes on the wire
+			n := 6
+			if v19 {
+				n = 10
+			}
+			sp := func() byte { return []byte{0x7e, 0x7d}[r.Intn(2)] }
+			bcd := make([]byte, n)
+			for k := range bcd {
+				bcd[k] = sp()
+			}
+			q := ref.Params{ID: uint16(sp())<<8 | uint16(sp()), V2019: v19, VersionByt: sp(), BCD: bcd, Serial: uint16(sp())<<8 | uint16(sp()),
+				Fragmented: true, Sum: 0x7e7e, No: uint16(0x7d00) | uint16(sp()), Body: body}
+			if i%8 >= 6 { // one header field ordinary (the frame a byte or two shorter)
+				q.Serial = r.U16()
+			}
+			b = ref.Build(q)
+			c.Count("fully_escaped_frames", 1)
+		}
 		d := hookFrame(v19, 0x0200, r.U16(), false, 0, 0, c04Body(r, 2, 28))
 		frames := [][]byte{a, b, d}
 		s0, e0 := len(a), len(a)+len(b)
@@ -276,5 +297,6 @@ func c04Worker(c *core.Collector, x *Ctx) {
 	})
 	c.Floor("long_lived_parser_megabytes", 200)
 	c.Floor("maximal_size_frames", 10)
+	c.Floor("fully_escaped_frames", 4)
 	c.Floor("streams_with_exhaustive_1_and_2_cuts", 10)
 }
